@@ -60,7 +60,7 @@ def c09(tier, seed):
 
 
 def _c09(tier, seed):
-    return combine(fam_list(tier, ['two_q', 'two_split_q', 'two_fills_q'], ['two_t']) + laws(tier, ['project_q'], ['project_t']), ['covered', 'nontrivial'],
+    return combine(fam_list(tier, ['two_q', 'two_split_q', 'two_fills_q', 'two_events_q'], ['two_t']) + laws(tier, ['project_q'], ['project_t']), ['covered', 'nontrivial'],
                    'two-security cell ledgers (TLC checks OthersUntouched on every step); each security\'s legs, costs and '
                    'holding must equal the single-security specification outcome whatever the other security does and '
                    'wherever its lines sit; non-trivial = accepted ledgers')
